@@ -1,4 +1,10 @@
+mod a2mlgen;
+mod c01;
 mod c13;
+mod gen;
+mod gentool;
+mod sut;
+mod vfs;
 mod hashseed;
 mod runner;
 mod tape;
@@ -6,7 +12,28 @@ mod tape;
 use runner::{CheckSpec, ScenarioPlan, Tier};
 
 fn all_checks() -> Vec<CheckSpec> {
-    vec![c13_spec()]
+    vec![c01_spec(), c13_spec()]
+}
+
+fn c01_spec() -> CheckSpec {
+    CheckSpec {
+        property: "C01",
+        level: "exploration",
+        rule: "one run = one session history Load(T0); (Edit*; Save; [Environment]; Reload)^k over a model, T0 a generated document from the frozen A2L 1.7.1 grammar table (whole file, fragment, file in the simulated FS, or a model built through new()/T::new()/push), saves and reloads through the in-memory VFS under the run's read-chunking schedule and hash seed. Oracles O1 reload succeeds, O2 model equality, O3 byte fixpoint, O4 same text under a second hash seed, O5 file = banner + text; fault configuration adds injected write/open/metadata/read faults with the relaxed oracle. Non-trivial: >= 1 full cycle and the document has a comment, non-ASCII text, hex/exponent number or IF_DATA, or the model was built/edited through the API. Distinct: (entry point, files used, cycles, lexical feature set, environment kinds, edits, fault kinds fired, hash-order class).",
+        assumptions: vec![
+            "generated documents are derived from a frozen copy of the grammar; a construct missing from it is never exercised",
+            "position-restricted siblings (RESERVED in RECORD_LAYOUT) are generated in ascending position order: the writer's documented reordering is an input precondition, not a drift",
+            "an Environment step (CRLF conversion, re-encoding) resets the baseline; the property says nothing about third-party rewrites",
+            "API-built models use finite floats and identifier-syntax names only",
+        ],
+        real_components: vec!["a2lfile: tokenizer, loader (decoding, BOM), parser, generated parsers/writers, writer, ifdata, a2ml, ItemList", "std Read::read_to_end retry/growth loop"],
+        stubbed_components: vec!["file system (in-memory VFS behind cfg(a2lfile_verif))", "OS randomness feeding std RandomState (getrandom interposer)"],
+        expected_probes: vec!["hash-order-cross-check"],
+        plans: vec![
+            ScenarioPlan { scenario: Box::new(c01::C01Cycles { faults: false }), quick_runs: 12_000, thorough_runs: 1_000_000 },
+            ScenarioPlan { scenario: Box::new(c01::C01Cycles { faults: true }), quick_runs: 6_000, thorough_runs: 400_000 },
+        ],
+    }
 }
 
 fn c13_spec() -> CheckSpec {
@@ -47,6 +74,8 @@ fn main() {
             }
         }
         Some("replay") => runner::replay_file(args.get(2).map_or("", String::as_str), &all_checks()),
+        Some("gen") => gentool::run(&args[2..]),
+        Some("rt") => gentool::roundtrip(&args[2..]),
         Some("selftest") => match hashseed::selftest() {
             Ok(()) => {
                 println!("hash seam self-test ok");
